@@ -21,7 +21,7 @@ Rec == ndJsonDeserialize(IOEnv.TRACE)
 
 VARIABLES l,      \* next line of the trace to consume
           s,      \* the machine state of Cose.tla
-          open,   \* TRUE while the current session is in the zone the model leaves open (parser gap): not judged until reset
+          open,   \* TRUE while the current session is not followed: parser gap, or outcome kinds diverged; until reset
           fp      \* fixed-point tracking (C07): [on, f7, val, bytes]: value/bytes of the last decode / encode since the wire was last touched
 tvars == <<l, s, open, fp>>
 
@@ -39,21 +39,27 @@ CmpExpect(e) == [cmp |-> SignOf(LabelCmpProp(e.a, e.b)), canon |-> SignOf(CanonC
    ---- talks about (a change that breaks another property must not raise an alarm here)                        ---- *)
 Prop == IF "PROP" \in DOMAIN IOEnv THEN IOEnv.PROP ELSE ""
 AllAspects == {"kind", "err", "bytes", "cb", "ret", "val"}
-DecodeProps == {"C08", "C09", "C10", "C14", "C15", "C18"}
+DecodeProps == {"C08", "C09", "C10", "C18"}
+(* Aspects:  kind / bytes / cb / ret / val = that field of the observation equals the specification's;                      *)
+(*           nopanic = the call returned;  orig = the retained protected-header byte strings (at every nesting level) equal *)
+(* Properties that are not about "the outcome is what the specification computes" are judged by their own predicates in   *)
+(* Consume (PROPFAIL) rather than by comparing observations: C07 (fixed point of the crate's own outputs), C12 (duplicate  *)
+(* labels), C13 (exactly one item), C14 (tags), C15 (integer range).                                                      *)
 Aspects(e) ==
   IF Prop = "" THEN AllAspects
+  ELSE IF Prop = "C01" THEN {"nopanic"}
   ELSE IF e.ev = "decode" \/ e.ev = "decode_value" THEN
-    (CASE Prop \in DecodeProps \cup {"C02", "C06", "C07", "C11", "C20"} -> {"kind", "val"}
-       [] Prop \in {"C12", "C13", "C01"} -> {"kind"}
+    (CASE Prop \in DecodeProps \cup {"C06", "C11", "C20"} -> {"kind", "val"}
+       [] Prop = "C02" -> {"orig"}
+       [] Prop = "C14" -> (IF e.ev = "decode" /\ e.api = "tagged" THEN {"kind", "val"} ELSE {})
        [] OTHER -> {})
   ELSE IF e.ev = "encode" THEN
-    (CASE Prop \in {"C02", "C06", "C07", "C20", "C14"} -> {"kind", "bytes"}
+    (CASE Prop \in {"C02", "C06", "C20"} -> {"kind", "bytes"}
+       [] Prop = "C14" -> (IF e.api = "tagged" THEN {"kind", "bytes"} ELSE {})
        [] Prop \in {"C11", "C18"} -> {"kind", "bytes"}
-       [] Prop \in {"C12", "C01"} -> {"kind"}
        [] OTHER -> {})
   ELSE IF e.ev \in {"tbs", "verify", "struct"} THEN
     (CASE Prop \in {"C02", "C03", "C04", "C05", "C06"} -> {"kind", "bytes", "cb", "ret"}
-       [] Prop = "C01" -> {"kind"}
        [] OTHER -> {})
   ELSE IF e.ev \in {"call", "new", "ctor", "build", "lit"} THEN
     (CASE Prop = "C19" -> {"kind", "val"}
@@ -63,12 +69,36 @@ Aspects(e) ==
   ELSE IF e.ev = "canonicalize" THEN (IF Prop = "C20" THEN {"kind", "val"} ELSE {})
   ELSE {}
 
-MatchObs(exp, o, asp) ==
+(* the retained protected-header byte strings of a value, in a fixed traversal order *)
+RECURSIVE OrigsHdr(_)
+RECURSIVE OrigsSigs(_)
+RECURSIVE OrigsRecips(_)
+OrigsProt(p) == <<p.orig>> \o OrigsHdr(p.hdr)
+OrigsSig(x) == OrigsProt(x.prot) \o OrigsHdr(x.unprot)
+OrigsHdr(h) == OrigsSigs(h.cs)
+OrigsSigs(a) == IF a = <<>> THEN <<>> ELSE OrigsSig(a[1]) \o OrigsSigs(Tail(a))
+OrigsRecips(a) == IF a = <<>> THEN <<>> ELSE OrigsSig(a[1]) \o OrigsRecips(a[1].recips) \o OrigsRecips(Tail(a))
+Origs(ty, v) ==
+  CASE ty = "Header" -> OrigsHdr(v)
+    [] ty = "ProtectedHeader" -> OrigsProt(v)
+    [] ty = "CoseSignature" -> OrigsSig(v)
+    [] ty = "CoseRecipient" -> OrigsRecips(<<v>>)
+    [] ty = "CoseSign" -> OrigsSig(v) \o OrigsSigs(v.sigs)
+    [] ty \in {"CoseSign1", "CoseMac0", "CoseEncrypt0"} -> OrigsSig(v)
+    [] ty \in {"CoseMac", "CoseEncrypt"} -> OrigsSig(v) \o OrigsRecips(v.recips)
+    [] ty = "SuppPubInfo" -> OrigsProt(v.prot)
+    [] ty = "CoseKdfContext" -> OrigsProt(v.pub.prot)
+    [] OTHER -> <<>>
+
+MatchObs(e, exp, o, asp) ==
   /\ "kind" \in asp => exp.kind = o.kind
+  /\ "nopanic" \in asp => (o.kind = "panic" => exp.kind = "panic")
   /\ ("bytes" \in asp /\ o.kind = "ok" /\ exp.kind = "ok") => exp.bytes = o.bytes
   /\ ("ret" \in asp /\ o.kind = "ok" /\ exp.kind = "ok") => exp.ret = o.ret
   /\ ("cb" \in asp /\ o.kind \in {"ok", "err"} /\ exp.kind = o.kind) => exp.cb = o.cb
   /\ ("val" \in asp /\ o.cmpval /\ o.kind \in {"ok", "err"} /\ exp.kind = o.kind) => exp.val = o.val
+  /\ ("orig" \in asp /\ o.cmpval /\ o.kind = "ok" /\ exp.kind = "ok" /\ exp.val # <<>> /\ o.val # <<>>) =>
+        Origs(e.ty, exp.val[1]) = Origs(e.ty, o.val[1])
 
 (* ---- the Prop layer evaluated on the recorded execution (Design |= Prop outside the palettes) ---- *)
 SameModOps(ty, a, b) ==
@@ -76,32 +106,46 @@ SameModOps(ty, a, b) ==
   ELSE IF ty = "CoseKeySet" THEN Len(a) = Len(b) /\ \A k \in 1..Len(a) :
          [a[k] EXCEPT !.ops = <<>>] = [b[k] EXCEPT !.ops = <<>>] /\ {a[k].ops[i] : i \in 1..Len(a[k].ops)} = {b[k].ops[i] : i \in 1..Len(b[k].ops)}
   ELSE a = b
-(* decoding (C08/C09/C10/C18/C14/C15): accepted iff well-formed, value = ValueOf; a tagged item is rejected by the untagged decoder *)
-PropDecode(st, e, n) ==
+(* decoding (C08/C09/C10/C18): the crate accepts iff the item is well-formed, and the value is ValueOf *)
+PropDecode(st, e, o) ==
   LET r == ReadToValue(st.wire[1]) IN
-  IF ~r.ok THEN n.out.kind = "err"                                              \* not exactly one item: rejected (C13)
+  IF ~r.ok THEN o.kind = "err"
   ELSE IF e.api = "slice" THEN
     (IF e.ty \in MsgTypes /\ HasEmptyNested(e.ty, r.v) THEN TRUE
      ELSE LET wf == WF(e.ty, e.reg, r.v) IN
-          ((n.out.kind = "ok") <=> wf) /\ (wf => SameModOps(e.ty, n.mem.val, ValueOf(e.ty, e.reg, r.v))))
+          ((o.kind = "ok") <=> wf) /\ (wf /\ o.cmpval => SameModOps(e.ty, o.val[1], ValueOf(e.ty, e.reg, r.v))))
   ELSE IF e.api = "tagged" THEN
     (IF r.v.t = "tag" /\ HasEmptyNested(e.ty, r.v.x) THEN TRUE
      ELSE LET wf == r.v.t = "tag" /\ r.v.tag = MagOfNat(ValueOfName("CborTag", e.ty)) /\ Msg_WF(e.ty, r.v.x) IN
-          ((n.out.kind = "ok") <=> wf) /\ (wf => n.mem.val = Msg_ValueOf(e.ty, r.v.x)))
+          ((o.kind = "ok") <=> wf) /\ (wf /\ o.cmpval => o.val[1] = Msg_ValueOf(e.ty, r.v.x)))
   ELSE TRUE
-(* fixed point (C07): decoding what the crate's own encoder wrote gives the same value; encoding that gives the same bytes *)
-PropFixedPointEnc(e, n) ==
-  ~fp.on \/ fp.f7 \/ fp.bytes = <<>> \/ (n.out.kind = "ok" /\ n.out.bytes = fp.bytes)
+(* C13: bytes that are not exactly one item are rejected; trailing bytes after an item with the extraneous-data error *)
+PropOneItem(st, e, o) ==
+  LET r == ReadToValue(st.wire[1]) IN
+  r.ok \/ r.gap \/ (o.kind = "err" /\ (r.err = "ExtraneousData" => o.err = "ExtraneousData"))
+(* C12: where the decoder / encoder of the specification reports a duplicate label, so does the crate *)
+PropDup(n, o) == (n.out.kind = "err" /\ n.out.err = "DuplicateMapKey") => (o.kind = "err" /\ o.err = "DuplicateMapKey")
+(* C15: where the specification reports an out-of-range integer, so does the crate; accepted values are exact *)
+PropRange(n, o) ==
+  /\ (n.out.kind = "err" /\ n.out.err = "OutOfRangeIntegerValue") => (o.kind = "err" /\ o.err = "OutOfRangeIntegerValue")
+  /\ (n.out.kind = "ok" /\ o.kind = "ok" /\ o.cmpval) => Obs(n).val = o.val
+(* C14: the untagged decoder of a taggable type rejects every tagged item *)
+PropUntagged(st, e, o) ==
+  LET r == ReadToValue(st.wire[1]) IN
+  (e.api = "slice" /\ e.ty \in MsgTypes /\ r.ok /\ r.v.t = "tag") => o.kind = "err"
 
-NextFp(st, e, n) ==
+(* fixed point (C07), on the crate's OWN observations: once a decode has succeeded, decoding what the crate's encoder wrote *)
+(* gives the same value, and encoding that gives the same bytes                                                        *)
+NextFp(st, e, o) ==
   IF e.ev \in {"inject", "truncate", "append", "lit", "new", "call", "build", "canonicalize", "focus"} THEN FpNone
-  ELSE IF e.ev = "decode" /\ n.out.kind = "ok" THEN
+  ELSE IF e.ev = "decode" /\ o.kind = "ok" THEN
     (IF fp.on THEN fp
      ELSE LET r == ReadToValue(st.wire[1]) IN
-          [on |-> TRUE, f7 |-> (r.ok /\ HasSmallBignumTag(r.v)), val |-> <<n.mem.val>>, bytes |-> <<>>])
+          [on |-> TRUE, f7 |-> (r.ok /\ HasSmallBignumTag(r.v)), val |-> (IF o.cmpval THEN o.val ELSE <<>>), bytes |-> <<>>])
   ELSE IF e.ev = "decode" THEN FpNone
-  ELSE IF e.ev = "encode" /\ fp.on /\ n.out.kind = "ok" /\ e.api \in {"vec", "tagged"} THEN [fp EXCEPT !.bytes = n.out.bytes]
+  ELSE IF e.ev = "encode" /\ fp.on /\ o.kind = "ok" /\ e.api \in {"vec", "tagged"} THEN [fp EXCEPT !.bytes = o.bytes]
   ELSE fp
+FpActive == fp.on /\ ~fp.f7 /\ fp.bytes # <<>>
 
 Consume ==
   /\ l <= Len(Rec)
@@ -112,23 +156,38 @@ Consume ==
        /\ UNCHANGED <<s, open, fp>>
        /\ (CmpExpect(e) = [cmp |-> o.cmp, canon |-> o.canon, eq |-> o.eq]
            \/ PrintT(<<"MISMATCH", l, "cmp", ToJson([expect |-> CmpExpect(e), event |-> e])>>))
+     ELSE IF open THEN UNCHANGED <<s, open, fp>>                \* this session is no longer followed (see below); wait for the reset
      ELSE
-       LET n == Step(s, e) gap == n.out.err = "GAP" IN
+       LET n == Step(s, e) gap == n.out.err = "GAP"
+           (* the crate and the specification disagree on whether the call succeeded: from here on they hold different   *)
+           (* objects, so the rest of THIS session says nothing more (the disagreement itself is reported below when the  *)
+           (* property under check talks about it); following resumes at the next reset                                   *)
+           diverged == Obs(n).kind # o.kind
+           dec == e.ev = "decode" /\ e.api # "bstr" IN
        /\ s' = n
-       /\ open' = (open \/ gap)
-       /\ fp' = IF open \/ gap THEN FpNone ELSE NextFp(s, e, n)
-       /\ \/ open \/ gap                                       \* unjudged
-          \/ MatchObs(Obs(n), o, Aspects(e))
+       /\ open' = (gap \/ diverged)
+       /\ fp' = IF gap \/ diverged THEN FpNone ELSE NextFp(s, e, o)
+       /\ \/ gap                                               \* unjudged
+          \/ MatchObs(e, Obs(n), o, Aspects(e))
           \/ PrintT(<<"MISMATCH", l, e.ev, ToJson([expect |-> Obs(n), event |-> e])>>)
-       /\ (open \/ gap \/ n.out.kind # "err" \/ o.kind # "err" \/ n.out.err = o.err
+       /\ (gap \/ n.out.kind # "err" \/ o.kind # "err" \/ n.out.err = o.err
            \/ PrintT(<<"DEVIATION", l, n.out.err, o.err>>))
        (* the property predicates themselves, on the execution the crate really performed *)
-       /\ (open \/ gap \/ e.ev # "decode" \/ e.api = "bstr" \/ Prop \notin DecodeProps \cup {"C12", "C13", ""} \/ PropDecode(s, e, n)
+       /\ (gap \/ ~dec \/ ~(Prop \in DecodeProps \cup {""} \/ (Prop = "C14" /\ e.api = "tagged")) \/ PropDecode(s, e, o)
            \/ PrintT(<<"PROPFAIL", l, "decode", ToJson([event |-> e, design |-> Obs(n)])>>))
-       /\ (open \/ gap \/ e.ev # "decode" \/ Prop \notin {"C07", ""} \/ ~fp.on \/ fp.f7 \/ fp.bytes = <<>>
-           \/ (n.out.kind = "ok" /\ n.mem.val = fp.val[1])
+       /\ (gap \/ ~dec \/ Prop \notin {"C13", ""} \/ PropOneItem(s, e, o)
+           \/ PrintT(<<"PROPFAIL", l, "one-item", ToJson([event |-> e, design |-> Obs(n)])>>))
+       /\ (gap \/ e.ev \notin {"decode", "encode"} \/ Prop \notin {"C12", ""} \/ PropDup(n, o)
+           \/ PrintT(<<"PROPFAIL", l, "duplicate-label", ToJson([event |-> e, design |-> Obs(n)])>>))
+       /\ (gap \/ e.ev # "decode" \/ Prop \notin {"C15", ""} \/ PropRange(n, o)
+           \/ PrintT(<<"PROPFAIL", l, "integer-range", ToJson([event |-> e, design |-> Obs(n)])>>))
+       /\ (gap \/ ~dec \/ Prop \notin {"C14", ""} \/ PropUntagged(s, e, o)
+           \/ PrintT(<<"PROPFAIL", l, "untagged-decoder-accepts-tag", ToJson([event |-> e, design |-> Obs(n)])>>))
+       /\ (gap \/ e.ev # "decode" \/ Prop \notin {"C07", ""} \/ ~FpActive
+           \/ (o.kind = "ok" /\ (o.cmpval /\ fp.val # <<>> => o.val = fp.val))
            \/ PrintT(<<"PROPFAIL", l, "fixedpoint-value", ToJson([event |-> e, design |-> Obs(n)])>>))
-       /\ (open \/ gap \/ e.ev # "encode" \/ e.api = "bstr" \/ Prop \notin {"C07", ""} \/ PropFixedPointEnc(e, n)
+       /\ (gap \/ e.ev # "encode" \/ e.api = "bstr" \/ Prop \notin {"C07", ""} \/ ~FpActive
+           \/ (o.kind = "ok" /\ o.bytes = fp.bytes)
            \/ PrintT(<<"PROPFAIL", l, "fixedpoint-bytes", ToJson([event |-> e, design |-> Obs(n)])>>))
 
 TraceNext == Consume
